@@ -31,11 +31,15 @@ type HarnessResult struct {
 	SolverErrs []string              `json:"solver_errors"`
 	Access     map[string]int        `json:"access,omitempty"`
 	AccessPos  map[string]string     `json:"access_pos,omitempty"`
+	passSeen   int
 	noteSet    map[string]bool
 	sigSeen    map[string]int
 	pathSigs   map[string]bool
 	mu         sync.Mutex
 }
+
+// passing paths are sampled at exponentially spaced ordinals (per worker) for diversity
+var sampleAt = map[int]bool{1: true, 5: true, 23: true, 90: true, 350: true, 1400: true}
 
 func newHarnessResult(name string, bounds map[string]int) *HarnessResult {
 	return &HarnessResult{
@@ -110,11 +114,7 @@ func (r *HarnessResult) merge(o *HarnessResult) {
 		r.Inconclusive(n)
 	}
 	r.Nontrivial += o.Nontrivial
-	for _, s := range o.Samples {
-		if len(r.Samples) < 4 {
-			r.Samples = append(r.Samples, s)
-		}
-	}
+	r.Samples = append(r.Samples, o.Samples...)
 	r.SolverErrs = append(r.SolverErrs, o.SolverErrs...)
 }
 
@@ -283,13 +283,19 @@ func (ex *Exec) runPath(prefix []int8) {
 		if len(ex.covers) > 0 {
 			ex.res.Nontrivial++
 		}
-		if len(ex.res.Samples) < 2 && len(ex.covers) > 0 {
+		ex.res.passSeen++
+		if sampleAt[ex.res.passSeen] && len(ex.res.Samples) < 6 {
 			if ex.solver.Check() == "sat" {
-				ex.res.Samples = append(ex.res.Samples, map[string]any{
+				raw := ex.solver.Model(ex.declared)
+				smp := map[string]any{
 					"harness": ex.res.Harness, "outcome": "PASS", "covers": sortedKeys(ex.covers),
-					"tags": copyTags(ex.tags), "witness": ex.decodeModel(ex.solver.Model(ex.declared)),
+					"tags": copyTags(ex.tags), "witness": ex.decodeModel(raw),
 					"branch_decisions": len(ex.trace),
-				})
+				}
+				if ex.vfs != nil {
+					smp["image"] = ex.exportImage(raw)
+				}
+				ex.res.Samples = append(ex.res.Samples, smp)
 			}
 		}
 	case "PRUNED":
